@@ -29,6 +29,15 @@ def main(tier, seed):
         for s in sorted({max(1, m - 2), m, m + 1, m + 7, 300}):
             ladder.append(runner.Item(it.key + ('S', s), it.src, it.args, w=2, s=s,
                                       meta=dict(it.meta, family=it.meta['family'] + ':ladder', allow_exhausted=True, ladder=(it.key, s))))
+    # the largest stacks 16 bits allow: globals and the top of the stack then live at addresses around and above 2^15,
+    # where signed and unsigned address arithmetic part
+    HIGH = '''byte[] G = ['a', 'b', 'c', 'd', 'e', 'f']; int[] GI = [1, 2, 3]; string[] GS = ["x", "yz"]; bool[] GO = [true, false, true]; int gv = 5; byte gb = 'q';
+empty bump(byte[] p) { p[0] += 1; }
+empty @is_you(int n) { byte[] loc = ['l', 'm']; write(G); bump(G); writeln(G); for (int i = 0; i < GI.length; i += 1) { GI[i] += n; write(GI[i]); } write(GS[1]); GS[0] = "w"; write(GS[0]); write(GO[2]); GO[1] = true;
+  write(GO[1]); gv += n; gb += 1; write(gv); write(gb); write(G[5]); write(loc); write(n); byte d[n]; for (int k = 0; k < n; k += 1) { d[k] = 'd'; } write(d); write("lit"); write(G is bool); }'''
+    for sz in (60, 16300, 16370, 16376, 16378):
+        ladder.append(runner.Item(('high', sz), HIGH, ['4'], w=2, s=sz,
+                                  meta={'family': 'high_addresses:ladder', 'allow_exhausted': True, 'ladder': (('high',), sz)}))
     # (c) word ladder: the same text at W = 2 and at wider words
     words = []
     wsel = [3, 8] if quick else [3, 4, 8]
@@ -38,6 +47,11 @@ def main(tier, seed):
     for it in wbase:
         words.append(it)
         for w in wsel:
+            words.append(runner.Item(it.key + ('W', w), it.src, it.args, w=w, s=it.s, meta=dict(it.meta, wide_of=it.key)))
+    # constants that need more than 16 bits: 24 bits is the narrow word, 32 and 64 the wide ones
+    for it in fam_seq.wide_constants(ws=(3,)):
+        words.append(it)
+        for w in (4, 8):
             words.append(runner.Item(it.key + ('W', w), it.src, it.args, w=w, s=it.s, meta=dict(it.meta, wide_of=it.key)))
     items = ladder + words
 
